@@ -14,9 +14,9 @@ MODEL_BOUNDS = {"Send", "Sync", "'static"}
 METHOD_NAMES = ["inc", "add", "get", "put", "swap", "reset", "total", "push", "peek", "mix", "scan", "fold_it", "at_most", "q1", "zed", "Mixed", "_lead"]
 PNAMES = ["a", "b", "c", "x", "y", "n", "val", "key", "item", "count"]
 PTYPES = ["i8", "u32", "String", "Vec<u8>", "Option<u8>", "&'static str", "[u8; 3]", "Self", "Vec<Self>", "Option<Box<Self>>", "&Self",
-          "fn(u8) -> u8", "std::collections::HashMap<String, Self>", "bool"]
+          "fn(u8) -> u8", "std::collections::HashMap<String, Self>", "bool", "[u8; Self::N]", "Vec<Self::Item>", "Self::Item", "(Self, [u8; Self::N])"]
 RTYPES = ["i8", "u32", "String", "Vec<u8>", "Option<u8>", "(u8, i8)", "bool", "Self", "Option<Self>", "Result<u8, String>", "Result<Self, &'static str>",
-          "Vec<Self>", "Box<dyn Fn(u8) -> Self + Send>"]
+          "Vec<Self>", "Box<dyn Fn(u8) -> Self + Send>", "[u8; Self::N]", "Option<Self::Item>", "Result<Self, Self::Err>"]
 SLF_RETS = [None, "u8", "Option<u8>", "Result<u8, String>", "Result<u8, &'static str>", "Result<u8, std::io::Error>", "std::option::Option<Self>",
             "::std::result::Result<u8, String>"]
 VIS = ["", "pub", "pub", "pub", "pub", "pub(crate)", "pub(super)", "pub(in crate)"]
@@ -214,18 +214,6 @@ def slf_compliant(ret_toks):
     return False
 
 
-LINE_WIDTH = 78
-
-
-def is_long(f):
-    """known class long-signature-self: the signature mentions `Self` in a parameter / return type and, printed with one space between
-    tokens (never shorter than the compiler's own rendering), does not fit one line of the compiler's token printer"""
-    tys = [t for _, t in f["params"]] + [f["ret"]]
-    if not any("Self" in toks_of(t) for t in tys):
-        return False
-    return len(" ".join(rs.flat(f["sig_toks"]))) > LINE_WIDTH
-
-
 class Interner(object):
     """opaque payloads (doc strings, generics text) travel through Coq as short identifiers"""
 
@@ -262,9 +250,9 @@ def coq_method(f, intern):
     recv = r[0] if len(r) == 1 else "(%s %s)" % (r[0], cb(r[1]))
     ret = toks_of(f["ret"])
     g = gen_text(f)
-    return ("{| mi_vis := %s; mi_name := %s; mi_async := %s; mi_recv := %s; mi_gen := %s; mi_params := %s; mi_ret := %s; mi_docs := %s; mi_slf_ok := %s; mi_long := %s |}"
+    return ("{| mi_vis := %s; mi_name := %s; mi_async := %s; mi_recv := %s; mi_gen := %s; mi_params := %s; mi_ret := %s; mi_docs := %s; mi_slf_ok := %s |}"
             % (coq_vis(vis_of(f["vis"])), cs(f["name"]), cb(f["async"]), recv, cs(intern.put(g) if g else ""), clst(ps),
-               copt(ret if ret else None, coq_ty), clst([intern.put(d) for d in f["docs"]], cs), cb(slf_compliant(ret)), cb(is_long(f))))
+               copt(ret if ret else None, coq_ty), clst([intern.put(d) for d in f["docs"]], cs), cb(slf_compliant(ret))))
 
 
 def coq_filter(flt):
@@ -525,8 +513,6 @@ def compare(model, real, inputs):
         return diffs
     for r, m in zip(real["methods"], model["methods"]):
         for k in ("vis", "async", "recv", "params", "ret", "docs"):
-            if k in ("params", "ret") and is_long(inputs[r["name"]]):
-                continue                   # known class: the model leaves the types as written, the macro may replace some; judged by the oracle
             if r[k] != m[k]:
                 diffs.append("%s.%s = %r, model %r" % (r["name"], k, r[k], m[k]))
         ig, iw = in_gen_where(inputs[r["name"]])
@@ -561,10 +547,26 @@ def where_extra(inp, out):
 # ------------------------------------------------------------------------------------------------
 # the property's oracle: written from the statement of C05 and the crate documentation, evaluated on the REAL output
 # ------------------------------------------------------------------------------------------------
+def turbofish(actor):
+    """the actor path as it must be written in front of `::` (valid in type and in expression position): `A < T >` -> `A :: < T >`"""
+    if "<" in actor:
+        i = actor.index("<")
+        if i > 0 and actor[i - 1] != "::":
+            return actor[:i] + ["::"] + actor[i:]
+    return list(actor)
+
+
 def subst_self(toks, actor):
-    out = []
-    for t in toks:
-        out += actor if t == "Self" else [t]
+    """`Self` names the actor type on the handle as well: `Self :: X` -> `<actor path> :: X`, `Self` -> actor type"""
+    out, i = [], 0
+    while i < len(toks):
+        if toks[i] == "Self" and i + 1 < len(toks) and toks[i + 1] == "::":
+            out += turbofish(actor)
+        elif toks[i] == "Self":
+            out += actor
+        else:
+            out.append(toks[i])
+        i += 1
     return out
 
 
@@ -607,15 +609,8 @@ def oracle_expected(c, imp):
     return exp
 
 
-def type_ok(real_txt, in_toks, actor, lenient):
-    if real_txt == " ".join(subst_self(in_toks, actor)):
-        return True
-    return lenient and real_txt == " ".join(in_toks)
-
-
-def oracle(c, imp, real, strict=False):
-    """list of failures of the property on the real projection `real` (a TOKENS outcome); inside the known class long-signature-self a type
-    may also be left as written unless strict"""
+def oracle(c, imp, real):
+    """list of failures of the property on the real projection `real` (a TOKENS outcome)"""
     fails = []
     if real is None:
         return ["no recognisable Live impl"]
@@ -652,12 +647,11 @@ def oracle(c, imp, real, strict=False):
         if r["recv"] != want_recv:
             fails.append("%s: receiver %s, expected %s" % (n, r["recv"], want_recv))
         ps = f["params"][1:] if (kind == "ref" and recv_of(f["self"])[0] == "RNone") else f["params"]
-        lenient = is_long(f) and not strict
         want_params = [" ".join(subst_self(toks_of(t), actor)) for _, t in ps]
-        if len(r["params"]) != len(ps) or not all(type_ok(x, toks_of(t), actor, lenient) for x, (_, t) in zip(r["params"], ps)):
+        if r["params"] != want_params:
             fails.append("%s: parameter types %s, expected %s" % (n, r["params"], want_params))
         want_ret = " ".join(subst_self(ret, actor))
-        if not type_ok(r["ret"], ret, actor, lenient):
+        if r["ret"] != want_ret:
             fails.append("%s: return type %r, expected %r" % (n, r["ret"], want_ret))
         if r["docs"] != list(f["docs"]):
             fails.append("%s: doc comments %r, expected %r" % (n, r["docs"], f["docs"]))
